@@ -261,6 +261,48 @@ func (w *W) c05(groups [][]*driver.Bound) {
 				}
 			}
 			prev, prevVal = b, vals[0]
+			// values that cross the decoders' pre-allocation thresholds: uniform schedules only (too long for the DFS)
+			if refcodec.IsBig(b.Case.Rec) {
+				for _, rv := range refcodec.BigValues(b.Case.Rec, w.thorough) {
+					if w.slow(b) {
+						break
+					}
+					enc1, err := implEncoding(b, rv)
+					enc2, _ := implEncoding(b, vals[0])
+					if err != nil || enc1 == nil || enc2 == nil {
+						continue
+					}
+					data := append(append(append([]byte{}, enc1...), enc2...), guard...)
+					ends := []int{len(enc1), len(enc1) + len(enc2)}
+					wants := []string{refcodec.NormalRec(rv), refcodec.NormalRec(vals[0])}
+					for name, pick := range map[string]int{"default": driver.OptFull, "all-one-byte": driver.OptOne, "all-half": driver.OptHalf, "zero-reads": driver.OptZero} {
+						cr := driver.NewChunkReader(data)
+						cr.Choose = pickOption(pick)
+						kind, msg := "", ""
+						for i := 0; i < 2 && kind == ""; i++ {
+							out := b.New()
+							o := driver.Guard(func() error { return out.DecodeBebop(cr) })
+							switch {
+							case o.Panicked || o.Err != nil:
+								kind, msg = "decode-fails|"+failKind(o), fmt.Sprintf("record %d: %s", i, outcomeStr(o))
+							case cr.Pos != ends[i]:
+								kind, msg = "position", fmt.Sprintf("after record %d the reader is at byte %d, the record ends at %d", i, cr.Pos, ends[i])
+							default:
+								if got, err := b.Extract(out); err == nil && refcodec.NormalRec(got) != wants[i] {
+									kind, msg = "value", fmt.Sprintf("record %d (%d bytes) decoded to a different value", i, ends[i])
+								}
+							}
+						}
+						w.res.Evaluations++
+						if kind != "" {
+							m := caseInfo(b, nil)
+							m["big_value_bytes"] = len(enc1)
+							m["uniform_schedule"] = name
+							w.report(fmt.Sprintf("C05|%s|%s|uniform:%s|big", kind, b.Case.Class, name), fmt.Sprintf("big value (%d bytes) under the uniform schedule %s: %s", len(enc1), name, msg), m)
+						}
+					}
+				}
+			}
 		}
 	}
 }
@@ -309,6 +351,11 @@ func (w *W) c06(groups [][]*driver.Bound) {
 				}
 				roles := map[string]bool{}
 				for k := 0; k < len(enc); k++ {
+					if len(enc) > 6000 && k >= 64 && k < len(enc)-64 && k%97 != 0 {
+						// encodings longer than 6000 bytes (the dedicated big values): first/last 64 cut points and every 97th
+						w.res.Extra["cut_points_skipped_in_long_encodings"]++
+						continue
+					}
 					role := ref.Roles[k].String()
 					if !roles[role] {
 						roles[role] = true
@@ -585,6 +632,38 @@ func (w *W) c07(groups [][]*driver.Bound) {
 						}
 					}
 				}
+				// large valid encodings (more than 4096 elements / bytes really present) with their counts raised
+				if refcodec.IsBig(b.Case.Rec) {
+					bigs := refcodec.BigValues(b.Case.Rec, w.thorough)
+					if len(bigs) > 6 {
+						bigs = bigs[:6]
+					}
+					for _, rv := range bigs {
+						if w.slow(b) {
+							break
+						}
+						ref := encodeRef(rv)
+						enc := ref.B
+						for i := 0; i+3 < len(enc) && i < 64; i++ {
+							if (ref.Roles[i] != refcodec.RCount && ref.Roles[i] != refcodec.RLen) || sameWord(ref, i) {
+								continue
+							}
+							n := uint32(enc[i]) | uint32(enc[i+1])<<8 | uint32(enc[i+2])<<16 | uint32(enc[i+3])<<24
+							role := ref.Roles[i].String()
+							for _, v := range []uint32{n + 1, 2*n + 1, 1 << 24, 48 << 20, n - 1} {
+								c := append([]byte{}, enc...)
+								putU32(c[i:], v)
+								w.res.States++
+								w.judgeArbitrary(b, c, "big-u32@"+role, func() map[string]any {
+									m := caseInfo(b, nil)
+									m["valid_encoding_bytes"] = len(enc)
+									m["count_replaced_by"] = v
+									return m
+								})
+							}
+						}
+					}
+				}
 				// giant counts last: they may kill the process (reported by the orchestrator as worker-killed)
 				for _, rv := range vals {
 					if !w.thorough {
@@ -657,6 +736,9 @@ func (w *W) c08(groups [][]*driver.Bound) {
 			if w.thorough {
 				vals = pickValues(refcodec.RecValues(b.Case.Rec, 0, 0), 16, 400)
 			}
+			if refcodec.IsBig(b.Case.Rec) {
+				vals = append(vals, refcodec.BigValues(b.Case.Rec, w.thorough)...)
+			}
 			for vi, rv := range vals {
 				if w.slow(b) {
 					break
@@ -683,6 +765,11 @@ func (w *W) c08(groups [][]*driver.Bound) {
 				}
 				var faults []fault
 				for k := 1; k <= W+1; k++ {
+					if W > 500 && k > 32 && k < W-32 && k%211 != 0 {
+						// encodes with hundreds of Write calls (the dedicated big values): first/last 32 calls and every 211th
+						w.res.Extra["write_fault_points_skipped_in_long_encodes"]++
+						continue
+					}
 					for style := 1; style <= 2; style++ {
 						for _, sticky := range []bool{false, true} {
 							faults = append(faults, fault{map[int]int{k: style}, sticky})
@@ -735,9 +822,18 @@ func (w *W) c08(groups [][]*driver.Bound) {
 				}
 				// reader faults: every byte offset, two delivery styles, two chunkings, two error values
 				for k := 0; k < len(want); k++ {
+					long := len(want) > 2000
+					if long && k >= 32 && k < len(want)-32 && k%211 != 0 && k != 4096 && k != 4100 && k != 4104 {
+						// long encodings (the dedicated big values): first/last 32 offsets, every 211th and the threshold offsets
+						w.res.Extra["fault_offsets_skipped_in_long_encodings"]++
+						continue
+					}
 					for style := 0; style < 2; style++ {
 						for _, chunk := range []int{driver.OptFull, driver.OptOne} {
-							for _, e := range []error{errIO, io.ErrClosedPipe} {
+							if long && chunk == driver.OptOne {
+								continue
+							}
+							for _, e := range []error{errIO, io.EOF} {
 								cr := driver.NewChunkReader(want)
 								cr.FailAt, cr.FailErr, cr.FailStyle = k, e, style
 								chunk := chunk
